@@ -276,6 +276,24 @@ def oneshot(rng, T, roots, fail=(), gated=True, tag='os', cap=None, hang_s=None,
                         bad('C04', 'all builds succeeded but exit status is %s' % run.exit_code)
                     if missing:
                         bad('C08', 'exit 0 but needed targets never ran: %s' % missing)
+        # nothing the first invocation spawned may outlive it (C10/C11) — judged now, before a second invocation touches the gates
+        def judge_leftover():
+            left = [x for x in run.leftover()]
+            if run.poll() is not None and left:
+                # give the kernel a moment to finish reaping (positive wait, bounded)
+                t0 = time.time()
+                while left and time.time() - t0 < 2:
+                    time.sleep(0.02)
+                    left = run.leftover()
+                if left:
+                    bad('C10', 'processes left behind after exit: %s' % left)
+                    if any(T.get(t, {}).get('kind') == 'service' for t, _, _ in left):
+                        bad('C11', 'a service that was only a dependency is still running after zinoma exited (status %s): %s'
+                            % (run.exit_code, left))
+        judged = False
+        if run.poll() is not None:
+            judge_leftover()
+            judged = True
         # second invocation on the untouched tree: what completed is skipped (C03), what failed or was killed runs again (C05, C02)
         second = None
         if second_run and with_inputs and outcome == 'exited' and not keepalive:
@@ -306,7 +324,7 @@ def oneshot(rng, T, roots, fail=(), gated=True, tag='os', cap=None, hang_s=None,
                     bad('C04', 'second invocation on the untouched tree: every build had succeeded, exit status %s' % run2.exit_code)
                 second = {'outcome': o2, 'exit_code': run2.exit_code, 'trace': tr2}
             finally:
-                run2.kill()
+                run2.kill(skip_first=n1)       # the shells of the FIRST invocation are judged below: leave them alone
         # shutdown (C10/C11): stop it if still alive, then nothing of ours may be left
         t_sig = None
         if run.poll() is None:
@@ -314,18 +332,8 @@ def oneshot(rng, T, roots, fail=(), gated=True, tag='os', cap=None, hang_s=None,
             run.signal(signal.SIGINT)
             if not run.wait_exit(8):
                 bad('C10', 'SIGINT not honoured within 8s')
-        left = [x for x in run.leftover()]
-        if run.poll() is not None and left:
-            # give the kernel a moment to finish reaping (positive wait, bounded)
-            t0 = time.time()
-            while left and time.time() - t0 < 2:
-                time.sleep(0.02)
-                left = run.leftover()
-            if left:
-                bad('C10', 'processes left behind after exit: %s' % left)
-                if any(T.get(t, {}).get('kind') == 'service' for t, _, _ in left):
-                    bad('C11', 'a service that was only a dependency is still running after zinoma exited (status %s): %s'
-                        % (run.exit_code, left))
+        if not judged:
+            judge_leftover()
         obs = {'outcome': outcome, 'exit_code': run.exit_code, 'trace': tr, 'roots': list(roots), 'fail': {t: fail[t] for t in sorted(fail)},
                'targets': T, 'gated': gated, 'stderr_tail': err[-600:], 'keepalive_expected': keepalive,
                'exit_latency_after_signal': (run.exit_time - t_sig) if (t_sig and run.exit_time) else None,
